@@ -51,6 +51,18 @@ def boundary_call(rng, measure):
     a = rng.randint(1, 14)
     b = rng.randint(1, 14)
     o = rng.randint(1, min(a, b))
+    adv_ = None
+    if measure == 'OVERLAP_COEFFICIENT' and rng.random() < 0.6:
+        # (o, n) whose quotient times n is not o again in binary64 (or o*(1/n) != o/n): algebraically
+        # equivalent rearrangements of the comparison (o > t*n, o*(1/n) >= t, ...) differ exactly here
+        adv_ = rng.choice(['>', '>=', '=', '>='])
+        lo = [(o_, n_) for n_ in range(2, 51) for o_ in range(1, n_ + 1) if (o_ / n_) * n_ < o_]
+        hi = [(o_, n_) for n_ in range(2, 51) for o_ in range(1, n_ + 1) if (o_ / n_) * n_ > o_]
+        rec = [(o_, n_) for n_ in range(2, 51) for o_ in range(1, n_ + 1) if o_ * (1.0 / n_) != o_ / n_]
+        o, a = rng.choice(lo if adv_ == '>' else rng.choice([hi, rec]))
+        b = a + rng.randint(0, 4)
+        if rng.random() < 0.5:
+            a, b = b, a
     if measure == 'JACCARD':
         t = o / (a + b - o)
     elif measure == 'DICE':
@@ -60,8 +72,9 @@ def boundary_call(rng, measure):
         t = o / (math.sqrt(a) * math.sqrt(b))
     else:
         t = o / min(a, b)
-    t = min(1.0, gens.ulp_shift(t, rng.choice([0, 0, 0, -1, 1, -2])))
-    if rng.random() < 0.3:
+    if adv_ is None:
+        t = min(1.0, gens.ulp_shift(t, rng.choice([0, 0, 0, -1, 1, -2])))
+    if adv_ is None and rng.random() < 0.3:
         t = round(t, rng.choice([2, 3, 4])) or t
     t = min(max(t, 1e-3), 1.0)
     common = ['z%02d' % i for i in range(o)]
@@ -78,7 +91,8 @@ def boundary_call(rng, measure):
     L = pd.DataFrame({'id': range(1, len(lrows) + 1), 's': pd.Series(lrows, dtype=object)})
     R = pd.DataFrame({'id': range(1, len(rrows) + 1), 's': pd.Series(rrows, dtype=object)})
     return dict(measure=measure, kind='ws', tok=sm.WhitespaceTokenizer(return_set=True), L=L, R=R,
-                names=('id', 's', 'id', 's'), t=t, tcls='boundary', op=rng.choice(['>=', '>=', '>', '=']),
+                names=('id', 's', 'id', 's'), t=t, tcls='boundary',
+                op=adv_ if adv_ else rng.choice(['>=', '>=', '>', '=']),
                 allow_empty=True, allow_missing=False, with_score=True,
                 njobs=rng.choice([1, 1, 2]), l_out=None, r_out=None)
 
@@ -158,12 +172,22 @@ def ed_family_call(rng):
             elif op == 's' and r:
                 r[min(pos, len(r) - 1)] = rng.choice(tailch + 'z')
         return ''.join(r)
+    tiny = rng.random() < 0.3
+    if tiny:
+        # very short strings and a threshold at or above the longest of them (all three operators)
+        s_ = lambda: ''.join(rng.choice('abz') for _ in range(rng.randint(0, 4)))
     lrows = [s_() for _ in range(rng.randint(2, 8))]
     rrows = [s_() for _ in range(rng.randint(2, 8))]
+    if tiny:
+        # a pair of block-swapped strings (u+v, v+u): far apart (distance = length) yet sharing q-grams
+        u = ''.join(rng.choice('abz') for _ in range(2))
+        v = ''.join(rng.choice('cdy') for _ in range(2))
+        lrows[rng.randrange(len(lrows))] = u + v
+        rrows[rng.randrange(len(rrows))] = v + u
     L = pd.DataFrame({'id': range(1, len(lrows) + 1), 's': pd.Series(lrows, dtype=object)})
     R = pd.DataFrame({'id': range(1, len(rrows) + 1), 's': pd.Series(rrows, dtype=object)})
     return dict(measure='EDIT_DISTANCE', kind=kind, tok=tok, L=L, R=R, names=('id', 's', 'id', 's'),
-                t=rng.choice([1, 1, 2, 2, 3, 1.5]), tcls='ed-family', op=rng.choice(['<=', '<=', '<', '=']),
+                t=rng.choice([4, 5, 5, 6]) if tiny else rng.choice([1, 1, 2, 2, 3, 1.5]), tcls='ed-family', op=rng.choice(['<=', '<=', '<', '=']),
                 allow_empty=True, allow_missing=False, with_score=True, njobs=rng.choice([1, 1, 1, 2]),
                 l_out=None, r_out=None)
 
